@@ -371,3 +371,145 @@ type NoTagProfile struct{ N string }
 
 func (p NoTagProfile) GetName() string             { return p.N }
 func (p NoTagProfile) GetClaims() psatoken.IClaims { return &NoTagClaims{} }
+
+// XOptClaims: like XOwnClaims, but the profile member's json tag carries an
+// option, as json tags may.
+type XOptClaims struct {
+	psatoken.P2Claims
+	Profile *string `json:"opt-profile,omitempty"`
+}
+
+func (o *XOptClaims) Validate() error {
+	if err := psatoken.ValidateClaims(o); err != nil {
+		return err
+	}
+	if o.Profile == nil || *o.Profile != o.CanonicalProfile {
+		return psatoken.ErrWrongProfile
+	}
+	return nil
+}
+
+func (o XOptClaims) MarshalCBOR() ([]byte, error) { //nolint:gocritic
+	return encoding.SerializeStructToCBOR(xem, &o)
+}
+
+func (o *XOptClaims) UnmarshalCBOR(data []byte) error {
+	if err := encoding.PopulateStructFromCBOR(xdm, data, o); err != nil {
+		return err
+	}
+	if p, err := o.P2Claims.Profile.Get(); err == nil {
+		o.Profile = &p
+	}
+	return nil
+}
+
+func (o XOptClaims) MarshalJSON() ([]byte, error) { //nolint:gocritic
+	return encoding.SerializeStructToJSON(&o)
+}
+
+func (o *XOptClaims) UnmarshalJSON(data []byte) error {
+	return encoding.PopulateStructFromJSON(data, o)
+}
+
+type XOptProfile struct{ N string }
+
+func (p XOptProfile) GetName() string { return p.N }
+func (p XOptProfile) GetClaims() psatoken.IClaims {
+	ep := eat.Profile{}
+	if err := ep.Set(p.N); err != nil {
+		panic(err)
+	}
+	n := p.N
+	return &XOptClaims{P2Claims: psatoken.P2Claims{
+		Profile:          &ep,
+		SwComponents:     &psatoken.SwComponents[*psatoken.SwComponent]{},
+		CanonicalProfile: p.N,
+	}, Profile: &n}
+}
+
+// ---- two more kinds for W-REG
+
+// XTwoClaims embeds two structs; the one that carries the profile field is
+// not the first.
+type VendorExtras struct {
+	Vendor *string `cbor:"-75200,keyasint,omitempty" json:"vendor,omitempty"`
+}
+
+type XTwoClaims struct {
+	VendorExtras
+	psatoken.P2Claims
+}
+
+func (o *XTwoClaims) Validate() error { return psatoken.ValidateClaims(o) }
+func (o XTwoClaims) MarshalCBOR() ([]byte, error) { //nolint:gocritic
+	return encoding.SerializeStructToCBOR(xem, &o)
+}
+func (o *XTwoClaims) UnmarshalCBOR(data []byte) error {
+	return encoding.PopulateStructFromCBOR(xdm, data, o)
+}
+func (o XTwoClaims) MarshalJSON() ([]byte, error) { //nolint:gocritic
+	return encoding.SerializeStructToJSON(&o)
+}
+func (o *XTwoClaims) UnmarshalJSON(data []byte) error {
+	return encoding.PopulateStructFromJSON(data, o)
+}
+
+type XTwoProfile struct{ N string }
+
+func (p XTwoProfile) GetName() string { return p.N }
+func (p XTwoProfile) GetClaims() psatoken.IClaims {
+	ep := eat.Profile{}
+	if err := ep.Set(p.N); err != nil {
+		panic(err)
+	}
+	return &XTwoClaims{P2Claims: psatoken.P2Claims{
+		Profile:          &ep,
+		SwComponents:     &psatoken.SwComponents[*psatoken.SwComponent]{},
+		CanonicalProfile: p.N,
+	}}
+}
+
+// XStrClaims: a profile-1 shaped claims-set that announces its profile as a
+// plain text string under the EAT profile key 265 (any string, not
+// necessarily a URI or an OID).
+type XStrClaims struct {
+	psatoken.P1Claims
+	EatProfile *string `cbor:"265,keyasint" json:"str-profile"`
+}
+
+func (o *XStrClaims) GetProfile() (string, error) {
+	if o.EatProfile == nil {
+		return "", psatoken.ErrMandatoryClaimMissing
+	}
+	if *o.EatProfile != o.CanonicalProfile {
+		return "", psatoken.ErrWrongProfile
+	}
+	return *o.EatProfile, nil
+}
+
+func (o *XStrClaims) Validate() error { return psatoken.ValidateClaims(o) }
+func (o XStrClaims) MarshalCBOR() ([]byte, error) { //nolint:gocritic
+	return encoding.SerializeStructToCBOR(xem, &o)
+}
+func (o *XStrClaims) UnmarshalCBOR(data []byte) error {
+	o.EatProfile = nil
+	return encoding.PopulateStructFromCBOR(xdm, data, o)
+}
+func (o XStrClaims) MarshalJSON() ([]byte, error) { //nolint:gocritic
+	return encoding.SerializeStructToJSON(&o)
+}
+func (o *XStrClaims) UnmarshalJSON(data []byte) error {
+	o.EatProfile = nil
+	return encoding.PopulateStructFromJSON(data, o)
+}
+
+type XStrProfile struct{ N string }
+
+func (p XStrProfile) GetName() string { return p.N }
+func (p XStrProfile) GetClaims() psatoken.IClaims {
+	n := p.N
+	return &XStrClaims{P1Claims: psatoken.P1Claims{
+		SwComponents:     &psatoken.SwComponents[*psatoken.SwComponent]{},
+		CanonicalProfile: p.N,
+	}, EatProfile: &n}
+}
